@@ -229,6 +229,14 @@ def run(tier, repo):
             if st[0] in ("many0", "many1"):
                 nrep += 1
                 inner = st[2]
+                def only_param(sq):
+                    """the repeated element is a parser handed in as a parameter (a generic helper analysed on its own):
+                    decided where the helper is called, with the actual parser inlined"""
+                    ss = sq["steps"]
+                    return len(ss) == 1 and (ss[0][0] == "param_parser" or (ss[0][0] in ("complete", "cut") and only_param(ss[0][2])))
+                if only_param(inner):
+                    rp.ok("TERMINATION", site(f), "rep/%s%s" % (f["path"].split("::")[-1], p), "generic helper: the element is its parser parameter (checked at the call sites)")
+                    return
                 rp.check(can_error(inner) and consumes_always(inner), "TERMINATION", "rep/%s%s" % (f["path"].split("::")[-1], p), site(f), "repetition over a parser that cannot fail or may not consume (only nom's no-progress guard ends it)",
                          why_ok="element parser can fail and always consumes")
         walk_steps(seq, chk)
